@@ -131,6 +131,9 @@ type combo struct {
 	// server encryption key, credentials without encryption key, a root without
 	// private key): nothing to seal there, everything else as usual
 	Sparse bool `json:"a_sensitive_value_is_absent,omitempty"`
+	// NoPublicKey: the record carries its private key material but no certificate
+	// public key (a shape no library flow produces; the secrets are secrets all the same)
+	NoPublicKey bool `json:"certificate_public_key_absent,omitempty"`
 }
 
 func bundles() []*types.CertificateBundle {
@@ -326,11 +329,23 @@ func checkCombo(t vkit.TB, c combo) bool {
 			return true // a token always has a creation time
 		}
 	}
+	if c.NoPublicKey {
+		switch m := orig.(type) {
+		case *types.NodeCredentials:
+			m.CertificatePublicKeyPkix = nil
+		case *types.NodeInformation:
+			m.CertificatePublicKeyPkix = nil
+		case *types.RootCertificates:
+			m.Current.PublicKeyPkix = nil
+		case *types.ServerLedActivationToken:
+			return true
+		}
+	}
 	before := proto.Clone(orig)
-	nontrivial := c.Nonce || c.Prev || c.State || c.Bundles || c.OptState || c.StaleKeyId || c.Sparse
+	nontrivial := c.Nonce || c.Prev || c.State || c.Bundles || c.OptState || c.StaleKeyId || c.Sparse || c.NoPublicKey
 	rec.Case("direct/"+c.Type, fmt.Sprintf("%+v", c), nontrivial, func() any { return c })
 	if err := store(st, nodeenrollment.WithStorageWrapper(wa)); err != nil {
-		if c.Sparse {
+		if c.Sparse || c.NoPublicKey {
 			// the library refuses to store a record without that value: nothing to learn
 			rec.Count("sparse_records_refused_by_store", 1)
 			return true
@@ -455,6 +470,10 @@ func TestEnum_FieldCombinations(t *testing.T) {
 			return
 		}
 		c.StaleKeyId, c.Sparse = false, true
+		if !checkCombo(t, c) {
+			return
+		}
+		c.Sparse, c.NoPublicKey = false, true
 		if !checkCombo(t, c) {
 			return
 		}
